@@ -356,10 +356,35 @@ def rule_a5_span(chk: Check):
     tcls = repo.find_class(tk, "Tokenizer")
     fn = repo.find_func(tcls, "get_last_non_whitespace_token")
     skip = None
+    import types as _types
+    from .. import constfold as _cf
+    kinds = sorted(repo.token_enum_names())
+    TokenNS = _types.SimpleNamespace(**{k: ("Token", k) for k in kinds})
+    lits = {k: (frozenset(("Token", x.split(".")[-1]) if isinstance(x, str) else x for x in v) if isinstance(v, (set, frozenset, tuple, list)) else v)
+            for k, v in _cf.module_literals().items()}
     for n in ast.walk(fn):
-        if isinstance(n, ast.Compare) and len(n.ops) == 1 and isinstance(n.ops[0], ast.NotIn) \
-                and isinstance(n.comparators[0], (ast.Set, ast.Tuple, ast.List)):
-            skip = {norm_stmt(e).replace("Token.", "") for e in n.comparators[0].elts}
+        if isinstance(n, ast.Compare) and len(n.ops) == 1 and isinstance(n.ops[0], (ast.NotIn, ast.In)) and "type" in norm_stmt(n.left):
+            # which token kinds does the scan step over?  (finite-domain evaluation; the set may be a literal or a named constant)
+            import copy as _copy
+            n2 = _copy.deepcopy(n)
+            n2.left = ast.Name("_kind", ast.Load())
+            ast.fix_missing_locations(n2)
+            got = set()
+            try:
+                for k in kinds:
+                    env = {"_kind": ("Token", k), "Token": TokenNS}
+                    # a module-level constant holding Token members is read from its definition
+                    for cname in [x.id for x in ast.walk(n.comparators[0]) if isinstance(x, ast.Name) and x.id not in ("Token",)]:
+                        env[cname] = _token_set_constant(cname)
+                    keep = bool(_cf.fold_expr(n2, env, data_attrs=("type",) + tuple(kinds)))
+                    if keep != isinstance(n.ops[0], ast.NotIn) or (isinstance(n.ops[0], ast.In) and keep):
+                        pass
+                    stepped_over = (not keep) if isinstance(n.ops[0], ast.NotIn) else keep
+                    if stepped_over:
+                        got.add(k)
+                skip = got
+            except Exception:
+                skip = None
     chk.count("A5-span-body")
     chk.require(skip == {"ENDMARKER", "NEWLINE", "INDENT", "DEDENT"}, "A5-span-body",
                 "Tokenizer.get_last_non_whitespace_token:skip-set", f"{repo.TOKENIZER}:{fn.lineno}",
@@ -377,6 +402,24 @@ def rule_a5_span(chk: Check):
     chk.require(while_form or for_form,
                 "A5-span-body", "Tokenizer.get_last_non_whitespace_token:scan", f"{repo.TOKENIZER}:{fn.lineno}",
                 "the scan for the last consumed token must start at the token before the current index and walk backwards")
+
+
+def _token_set_constant(name: str):
+    """A module-level constant of tokenizer.py that is a set/frozenset/tuple display of Token members."""
+    tk = parse_py(repo.TOKENIZER)
+    for st in tk.body:
+        tgt = val = None
+        if isinstance(st, ast.Assign) and len(st.targets) == 1 and isinstance(st.targets[0], ast.Name):
+            tgt, val = st.targets[0].id, st.value
+        elif isinstance(st, ast.AnnAssign) and isinstance(st.target, ast.Name) and st.value is not None:
+            tgt, val = st.target.id, st.value
+        if tgt != name:
+            continue
+        if isinstance(val, ast.Call) and isinstance(val.func, ast.Name) and val.func.id in ("frozenset", "set", "tuple") and len(val.args) == 1:
+            val = val.args[0]
+        if isinstance(val, (ast.Set, ast.Tuple, ast.List)):
+            return frozenset(("Token", norm_stmt(e).split(".")[-1]) for e in val.elts)
+    raise AnalysisError(f"constant {name} is not a display of Token members")
 
 
 def rule_a9(chk: Check, tr):
@@ -762,9 +805,19 @@ def rule_combinators(chk: Check):
     for q, cond in leaves.items():
         f = fn(q)
         chk.count(R)
-        peek = ("do", "v0 = self._tokenizer.peek()")
-        want = {(peek, ("cond", cond, True), ("return", "self._tokenizer.getnext()")), (peek, ("cond", cond, False), ("return", "None"))}
-        chk.require(paths(f) == want, R, q, f.where,
+        PEEK = "self._tokenizer.peek()"
+        import re as _re2
+
+        def inline_peek(ps):
+            out = set()
+            for pth in ps:
+                if pth and pth[0] == ("do", f"v0 = {PEEK}"):
+                    pth = tuple((x[0], _re2.sub(r"\bv0\b", PEEK, x[1]), *x[2:]) for x in pth[1:])
+                out.add(pth)
+            return out
+        c2 = _re2.sub(r"\bv0\b", PEEK, cond)
+        want = {(("cond", c2, True), ("return", "self._tokenizer.getnext()")), (("cond", c2, False), ("return", "None"))}
+        chk.require(inline_peek(paths(f)) == want, R, q, f.where,
                     f"`{q}` must peek one token, consume it exactly when `{cond.replace('v0', 'tok')}`, and otherwise return None without consuming")
     # look-aheads never consume
     for q, ret in (("Parser.positive_lookahead", "v1"), ("Parser.negative_lookahead", "not v1")):
